@@ -16,6 +16,7 @@ pub fn generate(stream: &str, seed: u64, n: usize, emit: &mut dyn FnMut(String))
 		"crc" => crc::generate(seed, n, emit),
 		"api" => api::generate(seed, n, emit),
 		"rt" => ser::generate_rt(seed, n, emit),
+		"chain" => schema::generate_chain(emit),
 		"single" => ser::generate_single(seed, n, emit),
 		"schema" | "schema-bad" => schema::generate(stream, seed, n, emit),
 		"graph" | "graph-wild" => schema::generate_graph(stream, seed, n, emit),
@@ -39,6 +40,7 @@ pub fn run_line(line: &str) -> String {
 		"crc" => crc::run(line),
 		"api" => Ok(api::run_history(line)),
 		"rt" => ser::run_rt(line),
+		"chain" => schema::run_chain(line),
 		"single" => ser::run_single(line),
 		"schema" => schema::run(line),
 		"graph" => schema::run_graph(line),
